@@ -13,7 +13,10 @@ def obs_trace(cfg):
     V = code(2.0)[:, 0] if (cols == 1 and cfg.get("flatv")) else code(2.0)        # observed values may be given as a 1-D table too
     E = {"nu": jnp.arange(n, dtype=float) * 10.0 + 3.0 if cfg["flat"] else (jnp.arange(n, dtype=float) * 10.0 + 3.0)[:, None],
          "mu": jnp.arange(n, dtype=float) * 10.0 + 5.0 if cfg.get("flat2", cfg["flat"]) else (jnp.arange(n, dtype=float) * 10.0 + 5.0)[:, None]}        # a second observed parameter
-    g = jinns.data.DataGeneratorObservations(jax.random.PRNGKey(cfg["seed"]), b, P, V, E)
+    skw = {}
+    if cfg.get("sharded"):        # the documented optional placement of the tables on a device: same tables, same batches
+        skw["sharding_device"] = jax.sharding.SingleDeviceSharding(jax.devices()[0])
+    g = jinns.data.DataGeneratorObservations(jax.random.PRNGKey(cfg["seed"]), b, P, V, E, **skw)
     batches, stores = [], []
     extra_fails = cfg.setdefault("_extra_fails", [])
     for _ in range(cfg["calls"]):
@@ -191,6 +194,7 @@ def generate(tier, seed, casedir, variant):
         n = rng.randint(1, 8); b = rng.randint(1, n)
         cfg = dict(what="obs", n=n, b=b, cols=rng.choice([1, 1, 2]), flat=rng.random() < 0.4, flat2=rng.random() < 0.5, calls=2 * (-(-n // b)) + 1, seed=rng.randrange(1 << 30))
         cfg["flatv"] = rng.random() < 0.4
+        cfg["sharded"] = rng.random() < 0.25
         if cfg["cols"] > 1:
             cfg["flat"] = False
         batches, stores = obs_trace(cfg)
